@@ -26,6 +26,7 @@ type Prog struct {
 	Root     string
 	loadErrs []string
 	wsets    map[*ssa.Function]*wset
+	pureFields map[string]bool // heap keys of function-valued fields declared pure
 }
 
 func pkgDirToPath(dir string) string {
@@ -70,6 +71,19 @@ func LoadProg(root string, patterns []string, tags string, cs *ContractSet) (*Pr
 		}
 		sp.Build()
 		p.ByPath[pkgs[i].PkgPath] = sp
+	}
+	p.pureFields = map[string]bool{}
+	for _, fd := range cs.Fields {
+		if fd.Kind == "purefunc" {
+			path := pkgDirToPath(fd.Pkg)
+			short := path
+			if tp := p.TypesPkg[path]; tp != nil {
+				short = pkgShort(tp)
+			}
+			for _, f := range fd.Fields {
+				p.pureFields[short+"."+f] = true
+			}
+		}
 	}
 	for _, fc := range cs.Funcs {
 		path := fc.Pkg
